@@ -38,6 +38,8 @@ func c01hKey(e ast.Expr) string {
 		return ""
 	case *ast.IndexExpr:
 		return c01hKey(x.X) + "[" + c01hKey(x.Index) + "]"
+	case *ast.ArrayType:
+		return "[" + c01hKey(x.Len) + "]" + c01hKey(x.Elt)
 	case *ast.SliceExpr:
 		return c01hKey(x.X) + "[" + c01hKey(x.Low) + ":" + c01hKey(x.High) + "]"
 	case *ast.TypeAssertExpr:
@@ -462,10 +464,10 @@ func c01hClientAppendHeaders() (string, error) {
 	hdr := fd.Type.Params.List[1].Names[0].Name
 	end := fd.Type.Params.List[2].Names[0].Name
 	e := &c01hExec{fn: "clientStream.AppendHeaders",
-		track: map[string]string{"isReqHeader": "Bool", "scheme": "B", "method": "B", "host": "B", "h": "B", "path": "B", "pathOriginal": "B", "query": "B",
+		track: map[string]string{"isReqHeader": "Bool", "scheme": "B", "method": "B", "host": "B", "h": "B", "path": "B", "pathOriginal": "B", "query": "B", "unescaped": "B",
 			"req.Method": "B", "req.Host": "B", "req.URL": "B", "req.ContentLength": "Int", "req.Header[\"User-Agent\"]": "Bool",
 			"url.Scheme": "B", "url.Host": "B", "url.Path": "B", "url.RawPath": "B", "url.RawQuery": "B", "req.Header": "Bool"},
-		valAtoms: map[string]string{"s.conn.RemoteAddr().String()": "remote"},
+		valAtoms: map[string]string{"s.conn.RemoteAddr().String()": "remote", "fasthttpPath(pathOriginal)": "(fhPath ((V \"VarPathOriginal\").getD []))"},
 		condAtom: map[string]string{end: "endStream", "nil": "true", "mhttp2.EncodeHeader(" + hdr + ")": "true"},
 	}
 	e.getVar = func(name string) (string, string) {
@@ -485,6 +487,14 @@ func c01hClientAppendHeaders() (string, error) {
 		}
 		a, b := c01hKey(as.Lhs[0]), c01hKey(as.Lhs[1])
 		switch rk := c01hKey(as.Rhs[0]); rk {
+		case "url.PathUnescape(pathOriginal)":
+			po, ok := st.v["pathOriginal"]
+			if !ok {
+				return fmt.Errorf("url.PathUnescape(pathOriginal) before pathOriginal is bound")
+			}
+			st.v[a] = "((unescape " + po + ").getD [])"
+			st.v[b+"==nil"] = "(unescape " + po + ").isSome"
+			return nil
 		case "s.conn.RawConn().(*mtls.TLSConn)":
 			st.v[b] = "tls"
 			e.track[b] = "Bool"
@@ -613,12 +623,14 @@ func c01hClientAppendHeaders() (string, error) {
 	out := "/-- the request clientStream.AppendHeaders hands to the HTTP/2 client connection. `isReq`: the header map is a\n" +
 		"    *mhttp2.ReqHeader (HTTP/2 downstream: `own` = method, host and request URI of that request); `V`: the proxy variables\n" +
 		"    (none = GetString fails); `hdrHost`: headers.Get(\"Host\"); `remote`: the upstream address; `tls`: upstream connection is TLS;\n" +
-		"    `hasCL` / `hasUA`: the header map that is sent has a Content-Length / User-Agent entry -/\n" +
+		"    `hasCL` / `hasUA`: the header map that is sent has a Content-Length / User-Agent entry; `unescape` = url.PathUnescape\n" +
+		"    (none = error), `fhPath` = fasthttp's path normalisation (black boxes) -/\n" +
 		"structure Built where\n  method : List UInt8\n  host : List UInt8\n  /-- the request's URL is the url.URL literal (Path, RawPath, RawQuery below) instead of the downstream request's own -/\n" +
 		"  urlFromVars : Bool\n  scheme : List UInt8\n  path : List UInt8\n  rawPath : List UInt8\n  rawQuery : List UInt8\n" +
 		"  /-- req.ContentLength = -1 -/\n  unknownLength : Bool\n  /-- a nil User-Agent entry is added -/\n  uaNil : Bool\n  /-- req.Header = EncodeHeader(headers) -/\n  headerFromMap : Bool\n\n"
 	out += "def clientAppendHeaders (isReq endStream tls : Bool) (own : List UInt8 × List UInt8 × List UInt8) (V : String → Option (List UInt8))\n" +
-		"    (hdrHost : Option (List UInt8)) (remote : List UInt8) (hasCL hasUA : Bool) : Built :=\n"
+		"    (hdrHost : Option (List UInt8)) (remote : List UInt8) (hasCL hasUA : Bool)\n" +
+		"    (unescape : List UInt8 → Option (List UInt8)) (fhPath : List UInt8 → List UInt8) : Built :=\n"
 	out += "  { method := " + st.v["req.Method"] + ",\n    host := " + st.v["req.Host"] + ",\n    urlFromVars := (" + st.v["req.URL"] + " == [1]),\n" +
 		"    scheme := " + st.v["url.Scheme"] + ",\n    path := " + st.v["url.Path"] + ",\n    rawPath := " + st.v["url.RawPath"] + ",\n    rawQuery := " + st.v["url.RawQuery"] + ",\n" +
 		"    unknownLength := (" + st.v["req.ContentLength"] + " == (-1 : Int)),\n    uaNil := " + st.v["req.Header[\"User-Agent\"]"] + ",\n    headerFromMap := " + st.v["req.Header"] + " }\n"
@@ -662,6 +674,7 @@ func c01hWriteHeaderCL() (string, error) {
 	}
 	st := &c01hState{v: map[string]string{}}
 	var ws *ast.CompositeLit
+	var dropped []string
 	for _, s := range fd.Body.List {
 		// dataLen block: `if ms.SendData != nil { dataLen = ms.SendData.Len() }`
 		if is, ok := s.(*ast.IfStmt); ok && c01hKey(is.Cond) == "ms.SendData != nil" {
@@ -670,6 +683,26 @@ func c01hWriteHeaderCL() (string, error) {
 		if as, ok := s.(*ast.AssignStmt); ok && len(as.Lhs) == 1 && c01hKey(as.Lhs[0]) == "ws" {
 			if u, ok := as.Rhs[0].(*ast.UnaryExpr); ok {
 				ws, _ = u.X.(*ast.CompositeLit)
+			}
+			continue
+		}
+		if rs, ok := s.(*ast.RangeStmt); ok {
+			// for _, k := range []string{…} { rsp.Header.Del(k) }
+			cl, ok := rs.X.(*ast.CompositeLit)
+			if !ok || c01hKey(cl.Type) != "[]string" || len(rs.Body.List) != 1 {
+				return "", e.errf("range statement outside the vocabulary")
+			}
+			es, ok := rs.Body.List[0].(*ast.ExprStmt)
+			if !ok || c01hKey(es.X) != "rsp.Header.Del("+c01hKey(rs.Value)+")" {
+				return "", e.errf("range body outside the vocabulary")
+			}
+			for _, el := range cl.Elts {
+				b, ok := el.(*ast.BasicLit)
+				if !ok {
+					return "", e.errf("dropped header name is not a literal")
+				}
+				n, _ := strconv.Unquote(b.Value)
+				dropped = append(dropped, c01hBytes(strings.ToLower(n)))
 			}
 			continue
 		}
@@ -722,6 +755,8 @@ func c01hWriteHeaderCL() (string, error) {
 		"    `up`: Content-Length of the response that is forwarded (deleted from the map and re-written as computed here),\n" +
 		"    `upValid`: it parses as a non-negative integer, `dataEmpty`: no payload data, `end_`: no data buffer and no trailer map -/\n" +
 		"def respContentLength (isHead : Bool) (status : Nat) (bodyAllowed : Nat → Bool) (dataEmpty upValid : Bool) (up : Option (List UInt8)) : List UInt8 :=\n  " + st.v["clen"] + "\n"
+	out += "/-- header fields MStream.WriteHeader deletes from the response before it is written (connection-specific, RFC 7540 8.1.2.2) -/\n"
+	out += "def respDropped : List (List UInt8) := [" + strings.Join(dropped, ", ") + "]\n"
 	out += "def respContentType : List UInt8 := " + st.v["ctype"] + "\n"
 	out += "def respAddsDate (noDate : Bool) : Bool := " + dateE + "\n"
 	out += "def respEndOnHeaders (end_ isHead : Bool) : Bool := " + st.v["endStream"] + "\n"
